@@ -290,6 +290,6 @@ def oracle(c, stats):
 
 
 PARTS = [
-    HypPart("roundtrip", lambda tier: case(tier), oracle, {"quick": 4000, "thorough": 60000}),
+    HypPart("roundtrip", lambda tier: case(tier), oracle, {"quick": 8000, "thorough": 60000}),
     FuzzPart("coverage-guided-roundtrip", "roundtrip", runs=5000),
 ]
